@@ -186,6 +186,20 @@ func (d *Decoder) DecodeInteger() (uint64, error) {
 	return d.decodeUintFromReader()
 }
 
+// DecodeIntegerBits decodes a compact integer destined for a field of the given
+// width and rejects a value that does not fit (it would otherwise be truncated
+// silently and re-encode differently).
+func (d *Decoder) DecodeIntegerBits(bits uint) (uint64, error) {
+	v, err := d.decodeUintFromReader()
+	if err != nil {
+		return 0, err
+	}
+	if bits < 64 && v >= uint64(1)<<bits {
+		return 0, fmt.Errorf("integer %d does not fit in %d bits", v, bits)
+	}
+	return v, nil
+}
+
 // C.6 Deserialization
 func (d *Decoder) DecodeLength() (uint64, error) {
 	cLog(Yellow, "Reading length flag")
